@@ -900,9 +900,10 @@ def missing_headers(path: str) -> Tuple[List[str], List[str], List[str]]:
                 continue
             h = PREDEFINED_FORMATS[fmt]
             if v.number != h.number or (
-                # "Float" instead of "Integer" is ok
+                # "Float" instead of "Integer" is ok, except for PS: phase set
+                # ids written as floats keep six significant digits only
                 v.type != h.typ
-                and not (v.type == "Float" and h.typ == "Integer")
+                and not (v.type == "Float" and h.typ == "Integer" and fmt != "PS")
             ):
                 if fmt == "PS" and v.type != h.typ:
                     raise VcfError(
